@@ -174,7 +174,11 @@ func (s *Stack) resolveStep(cur any, p string) any {
 	case map[string]any:
 		return c[p]
 	case map[string]string:
-		return c[p]
+		// a missing key is absent, not an empty string
+		if v, ok := c[p]; ok {
+			return v
+		}
+		return nil
 	}
 
 	// Try numeric index for slices and arrays
